@@ -28,6 +28,16 @@ Theorem heap_convert_documented : forall unsample d,
 Proof. exact convert_heap_view_lemma. Qed.
 Print Assumptions heap_convert_documented.
 
+(* an effective sampling rate of at most 1 (no rate, heap/1..3, heap_v2/0..1) means RAW values: both the
+   parser model's scaleHeapSample and the specification leave non-zero count and size untouched *)
+Theorem heap_rate_le_1_raw : forall unsample c s rate, rate <= 1 -> c <> 0 -> s <> 0 ->
+  scale_heap_sample unsample c s rate = (c, s).
+Proof. exact scale_rate_le_1_lemma. Qed.
+Print Assumptions heap_rate_le_1_raw.
+Theorem heap_spec_rate_le_1_raw : forall unsample d c s, hd_period d <= 1 -> s <> 0 -> unsampled unsample d c s = [c; s].
+Proof. exact unsampled_rate_le_1_lemma. Qed.
+Print Assumptions heap_spec_rate_le_1_raw.
+
 (* contention / mutex: count x period, delay scaled to nanoseconds *)
 Theorem contention_convert_documented : forall d,
   samples_meet false (convert_contention d) (contention_view d) (p_sample (convert_contention d)) = true.
